@@ -12,10 +12,10 @@ git -C /repo worktree add --detach $wt HEAD >/dev/null 2>&1 || { echo "$label: w
 cd $wt
 demo0=NA; demo1=NA; applied=yes
 if [ "$src" != HEAD ]; then
-  PYTHONHASHSEED=0 timeout 600 /venv/bin/python $src/demo.py >$out.demo0 2>&1; demo0=$?
+  PYTHONPATH=$wt PYTHONHASHSEED=0 timeout 600 /venv/bin/python $src/demo.py >$out.demo0 2>&1; demo0=$?
   git apply $src/patch.diff 2>$out.apply || applied=no
   if [ $applied = yes ]; then
-    PYTHONHASHSEED=0 timeout 600 /venv/bin/python $src/demo.py >$out.demo1 2>&1; demo1=$?
+    PYTHONPATH=$wt PYTHONHASHSEED=0 timeout 600 /venv/bin/python $src/demo.py >$out.demo1 2>&1; demo1=$?
   fi
 fi
 suite=skipped
